@@ -205,6 +205,7 @@ def run(focus, tier, seed):
                 total.ok(c.split(".")[0], c + ".real_limits", sum(1 for e in tr["ev"] if e["op"] in ("union", "join")))
             for c in ("C16.returns", "C16.pinned_value", "C16.no_half_update", "C16.total_pinned", "C16.exportable", "C16.union_clamped", "C16.operand_unchanged"):
                 total.ok("C16", c + ".real_limits", len(tr["ev"]))
+            total.ok("C06", "C06.cells.real_limits", len(tr["ev"]))
             for clause, idx in fails:
                 total.fail(clause.split(".")[0], clause + ".real_limits", ENGINE,
                            {"trace": {k: tr[k] for k in ("kind", "w", "d", "pos", "table")}, "events": [{k: e.get(k) for k in ("op", "key", "amount", "error", "raised", "rt")} for e in tr["ev"][:idx]]},
